@@ -72,7 +72,8 @@ def handlePath (sc tr : Json) : Json :=
   let absOf (parts : List String) : String := if parts.isEmpty then ifs else ifs ++ "/" ++ "/".intercalate parts
   let v10 := if !saneFs || isNull (jobj tr "parent") || jstr tr "parent_abs" == absOf iparts.dropLast then [] else ["absolute.of_parent"]
   let v11 := if !saneFs || isNull (jobj tr "parent") || jbool tr "parent_canon" then [] else ["child_parent.parent_not_canonical"]
-  let v12 := if !saneFs || jbool tr "child_canon" then [] else ["child.not_canonical"]
+  let v12 := (if !saneFs || jbool tr "child_canon" then [] else ["child.not_canonical"]) ++
+    (if jstr tr "child_rel" == "/".intercalate cparts then [] else ["canonical.relative_of_child"])
   let v13 := if !saneFs || isNull (jobj tr "child_back") || jstr tr "child_back_abs" == iabs then [] else ["child_parent.absolute"]
   let v14 := if !saneFs || isNull (jobj tr "child_back") || jbool tr "child_back_canon" then [] else ["child_parent.eq_hash"]
   let viol := v1 ++ v2 ++ v3 ++ v4 ++ v5 ++ v6 ++ v7 ++ v8 ++ v9 ++ v10 ++ v11 ++ v12 ++ v13 ++ v14
